@@ -167,6 +167,45 @@ def _table() -> dict[str, dict[str, Any]]:
         "int_mean_truncation": lambda x: jnp.mean(jnp.floor(x).astype(jnp.int32), axis=1), "convert_int_sum_dtype": lambda x: jnp.sum(jnp.floor(x).astype(jnp.int32), dtype=jnp.float32),
     }.items():
         add(f"misc_{nm}", f, {"grid": [c]})
+    # ---- axis sweeps on rank-3 / rank-4 inputs with distinct extents ----------------------------
+    x3 = (np.arange(24, dtype=F32).reshape(2, 3, 4) * 7 % 11 - 5.0) / 3.0
+    x4 = (np.arange(120, dtype=F32).reshape(2, 3, 4, 5) * 13 % 17 - 8.0) / 5.0
+    axis_ops = {
+        "cumsum": lambda x, a: jnp.cumsum(x, axis=a), "cummax": lambda x, a: lax.cummax(x, axis=a), "cummin": lambda x, a: lax.cummin(x, axis=a),
+        "cummax_reverse": lambda x, a: lax.cummax(x, axis=a, reverse=True), "cumsum_reverse": lambda x, a: lax.cumsum(x, axis=a, reverse=True),
+        "cumlogsumexp": lambda x, a: lax.cumlogsumexp(x, axis=a), "sort": lambda x, a: jnp.sort(x, axis=a), "argsort": lambda x, a: jnp.argsort(x, axis=a),
+        "argmax": lambda x, a: jnp.argmax(x, axis=a), "argmin_keepdims": lambda x, a: jnp.argmin(x, axis=a, keepdims=True), "softmax": lambda x, a: jax.nn.softmax(x, axis=a),
+        "log_softmax": lambda x, a: jax.nn.log_softmax(x, axis=a), "logsumexp": lambda x, a: jax.nn.logsumexp(x, axis=a), "flip": lambda x, a: jnp.flip(x, axis=a),
+        "roll": lambda x, a: jnp.roll(x, 1, axis=a), "sum_keepdims": lambda x, a: jnp.sum(x, axis=a, keepdims=True), "max": lambda x, a: jnp.max(x, axis=a),
+        "mean_var": lambda x, a: jnp.mean(x, axis=a) + jnp.var(x, axis=a), "prod": lambda x, a: jnp.prod(x, axis=a), "any_all": lambda x, a: jnp.any(x > 0, axis=a) ^ jnp.all(x > -1, axis=a),
+        "take_idx": lambda x, a: jnp.take(x, jnp.array([1, 0]), axis=a), "concat": lambda x, a: jnp.concatenate([x, -x], axis=a), "stack": lambda x, a: jnp.stack([x, -x], axis=a),
+        "expand_squeeze": lambda x, a: jnp.squeeze(jnp.expand_dims(x, a) * 2.0, axis=a), "split": lambda x, a: jnp.split(x, [1], axis=a)[1], "diff": lambda x, a: jnp.diff(x, axis=a),
+        "moveaxis_last": lambda x, a: jnp.moveaxis(x, a, -1), "standardize": lambda x, a: jax.nn.standardize(x, axis=a), "median": lambda x, a: jnp.median(x, axis=a),
+        "repeat": lambda x, a: jnp.repeat(x, 2, axis=a), "pad_axis": lambda x, a: jnp.pad(x, [(1, 0) if k == a % x.ndim else (0, 0) for k in range(x.ndim)]), "norm": lambda x, a: jnp.linalg.norm(x, axis=a),
+        "count_nonzero": lambda x, a: jnp.count_nonzero(x > 0, axis=a), "ptp_free": lambda x, a: jnp.max(x, axis=a) - jnp.min(x, axis=a), "top_k_moved": lambda x, a: lax.top_k(jnp.moveaxis(x, a, -1), 2)[0],
+    }
+    for nm, f in axis_ops.items():
+        for a in (0, 1, 2, -1, -3):
+            add(f"axis3_{nm}_ax{a}", (lambda f, a: lambda x: f(x, a))(f, a), {"rank3": [x3]})
+        for a in (0, 1, 2):
+            add(f"axis4_{nm}_ax{a}", (lambda f, a: lambda x: f(x, a))(f, a), {"rank4": [x4]})
+    # contraction / permutation forms
+    A33 = (np.arange(9, dtype=F32).reshape(3, 3) - 4.0) / 3.0
+    B33 = (np.arange(9, dtype=F32).reshape(3, 3)[::-1] * 2 - 7.0) / 5.0
+    A23, B24 = A33[:2], np.arange(8, dtype=F32).reshape(2, 4) / 4.0
+    dn = lambda lc, rc, lb=(), rb=(): (((lc,), (rc,)), (lb, rb))  # noqa: E731
+    for lc in (0, 1):
+        for rc in (0, 1):
+            add(f"dot_general_contract_l{lc}_r{rc}_square", (lambda lc, rc: lambda a, b: lax.dot_general(a, b, dn(lc, rc)))(lc, rc), {"square_3x3": [A33, B33]})
+    add("dot_general_contract_l0_r0_nonsquare", lambda a, b: lax.dot_general(a, b, dn(0, 0)), {"2x3_2x4": [A23, B24]})
+    add("dot_general_batch", lambda a, b: lax.dot_general(a, b, (((2,), (1,)), ((0,), (0,)))), {"batch": [x3, np.transpose(x3, (0, 2, 1)).copy()]})
+    add("dot_general_batch_contract_first", lambda a, b: lax.dot_general(a, b, (((1,), (1,)), ((0,), (0,)))), {"batch": [x3, x3 * 0.5]})
+    for eq in ("ij,kj->ik", "ji,jk->ik", "ij,ij->i", "ijk,ikl->ijl", "ijk,jil->kl", "ii->i", "ij->ji", "ijk->kji", "i,j->ij", "bij,bjk->bik"):
+        shp = {"i,j->ij": [np.arange(3, dtype=F32), np.arange(4, dtype=F32)], "ii->i": [A33], "ij->ji": [A23], "ijk->kji": [x3]}
+        ops2 = shp.get(eq) or ([A33, B33] if eq.count(",") and len(eq.split(",")[0]) == 2 else [x3, np.transpose(x3, (0, 2, 1)).copy()] if eq in ("ijk,ikl->ijl", "bij,bjk->bik") else [x3, np.transpose(x3, (1, 0, 2)).copy()])
+        add(f"einsum_{eq.replace(',', '_').replace('->', '_to_')}", (lambda eq: lambda *o: jnp.einsum(eq, *o))(eq), {"operands": list(ops2)})
+    for perm in ((0, 2, 1), (1, 0, 2), (1, 2, 0), (2, 0, 1), (2, 1, 0)):
+        add(f"transpose_{''.join(map(str, perm))}", (lambda perm: lambda x: jnp.transpose(x, perm) * 2.0)(perm), {"rank3": [x3]})
     # ---- complex ----------------------------------------------------------------------
     z = (np.array([1.0, -2.0, 0.5, 0.0]) + 1j * np.array([2.0, 0.5, -1.0, 3.0])).astype(np.complex64)
     for nm, f in {
